@@ -6,6 +6,8 @@ NOTE = ("Trusted: Lean 4.33 kernel (axioms propext/Classical.choice/Quot.sound o
         "the correspondence harness (sampling + small-scope enumeration ties the hand-written model to the code), the compiled Lean driver; "
         "dnaio/xopen/CPython/Cython/OS are modelled, not verified (DESIGN.md §8).")
 CLAIMED = {
+ "C01": dict(text="Lean theorems over the model of Aligner.locate / PrefixComparer / SuffixComparer and the eight adapter classes: locate_sound (column invariant of the banded DP incl. stale cells, early exit and last-column search) and matchTo_sound: every reported match lies inside read and adapter, obeys the documented placement rule of its type, covers the minimum overlap, is witnessed by an alignment of cost <= errors under the documented wildcard relation (tables_match_documentation re-checks the regenerated match tables against the documented IUPAC sets by kernel computation), and errors <= thr(non-N aligned adapter bases); noindel_is_hamming. The half 'errors is minimal' is stated (errors_minimal_statement) and decided by the brute-force oracle only until dp_exact is finished (partial). Model tied to the code by differential runs of locate/comparers/match_to.",
+             ref="§7 C01", technique="Lean 4 proof (DP column invariant by induction over columns/rows) + correspondence + brute-force oracle for the minimality half"),
  "C13": dict(text="Lean theorems (trim3_spec, trim5_spec, combine, all_good_unchanged, all_bad_empty, base_shift_invariant, nextseq_spec, "
                   "trimmed_bases_count) prove the BWA specification for every quality string, cutoff and base over the model of qualtrim.pyx; "
                   "the model is tied to the code by a differential run of quality_trim_index/nextseq_trim_index/QualityTrimmer against the compiled model, "
